@@ -235,6 +235,10 @@ func init() {
 			{`<% let g = fn() { return nil } %><%= g() == nil %>|<%= if (g()) { %>T<% } else { %>F<% } %>`, "true|F"},
 			{`<% let x = 5 %><% let g = fn(x) { let x = x + 1
  return x } %><%= g(1) %>|<%= x %>`, "2|5"},
+			// a function stored in an array or a hash, called through the element
+			{`<% let fs = [fn(x) { return x + 1 }, fn(x) { return x * 3 }] %><%= fs[0](5) %>|<%= fs[1](5) %>|<%= fs[0](fs[1](2)) %>`, "6|15|7"},
+			{`<% let h = {"inc": fn(x) { return x + 1 }} %><%= h["inc"](41) %>|<%= if (h["inc"](0) == 1) { %>one<% } %>`, "42|one"},
+			{`<% let fs = [fn(x) { return x + "!" }] %><% let ap = fn(k, v) { return fs[k](v) } %><%= ap(0, "hey") %>`, "hey!"},
 			// a function WITHOUT parameters still runs its body in a scope of its own: its lets neither
 			// overwrite a caller's parameter or variable of the same name nor stay visible after the call
 			{`<% let two = fn() { let a = 2
